@@ -30,6 +30,10 @@ BASES = {
 }
 
 JUNK = ["$", ";", "\\", "@", "~", "?", "%", "é"]
+# Characters that are ordinary (invalid, or legal inside comments/strings) for the grammar but that Python string
+# methods treat specially - line boundaries of str.splitlines, Unicode blanks of str.strip/split, Unicode digits of
+# int()/isdigit, NUL, BOM.  "For all character strings" must include them wherever a token, a comment or a string can be.
+EXOTIC = ["\x0b", "\x0c", "\x1c", "\x1e", "\x85", "\u2028", "\u2029", "\xa0", "\u3000", "\ufeff", "\x00", "\u0661"]
 
 _oracle = None
 
@@ -109,7 +113,7 @@ def _file_case(args):
 
 def alphabet(o):
     toks = [t for t in o.L.names if t in sentences.EXEMPLARS and t not in ("SPACE", "COMMENT", "ANY")]
-    return [sentences.EXEMPLARS[t] for t in toks] + ["    "] + JUNK
+    return [sentences.EXEMPLARS[t] for t in toks] + ["    "] + JUNK + EXOTIC
 
 
 def mutants(text, o, alpha, with_swaps=True):
@@ -159,6 +163,15 @@ def build(ctx, o):
             if t not in cases:
                 cases[t] = (kind, name)
                 per[kind] += 1
+    for ch in EXOTIC + ["é", "$", "\t"]:
+        for name, text in (("exotic-in-comment", "name p # a%sb\nversion 1.0\n# %s\nG | 0 #%s\n"), ("exotic-in-string", "name p\nversion 1.0\ntarget g (s=\"a%sb\")\nstr s = \"%s\"\nG(\"%s\") | 0\n"),
+                           ("exotic-between-tokens", "name p\nversion 1.0\nG | 0%sH | 1\n%sK | 2\nL%s | 3\n")):
+            for k in range(3):
+                parts = text.split("%s")
+                t = parts[0] + "".join((ch if i == k else ("x" if "string" in name or "comment" in name else " ")) + parts[i + 1] for i in range(3))
+                if t not in cases:
+                    cases[t] = (name, "exotic")
+                    per[name] += 1
     header = "name p\nversion 1.0\n\n"
     prefixes = [header, header + "G(", header + "G(1, ", header + "G | ", header + "int n = ", header + "float array A =\n    ",
                 header + "for int i in ", header + "for int i in 0:2\n    ", "name p\nversion 1.0\ntarget g ", ""]
